@@ -2021,8 +2021,13 @@ fn find_nsec_covering_record<'a>(
             return false;
         }
 
+        // The next name of the last NSEC in the chain is the zone apex, which sorts before every
+        // other name of the zone: that record covers every name of the zone after its owner. This
+        // does not depend on the response carrying the SOA (a wildcard expansion does not).
         test_name > nsec_name
-            && (test_name < next_domain_name || Some(next_domain_name) == soa_name)
+            && (test_name < next_domain_name
+                || Some(next_domain_name) == soa_name
+                || (next_domain_name <= *nsec_name && next_domain_name.zone_of(test_name)))
     })
 }
 
